@@ -170,6 +170,7 @@ type rewriter struct {
 	recv2     map[*ast.UnaryExpr]bool
 	rangeChan map[*ast.RangeStmt]bool
 	rangeMap  map[*ast.RangeStmt]bool
+	rangeAny  map[*ast.RangeStmt]bool
 	selBlocks map[*ast.BlockStmt]bool
 	fnStack   []string
 	seams     []seam
@@ -180,6 +181,7 @@ func (r *rewriter) run() {
 	r.recv2 = map[*ast.UnaryExpr]bool{}
 	r.rangeChan = map[*ast.RangeStmt]bool{}
 	r.rangeMap = map[*ast.RangeStmt]bool{}
+	r.rangeAny = map[*ast.RangeStmt]bool{}
 	r.selBlocks = map[*ast.BlockStmt]bool{}
 	// imports
 	for _, imp := range r.file.Imports {
@@ -387,6 +389,11 @@ func (r *rewriter) pre(c *astutil.Cursor) bool {
 			if _, isCh := tv.Type.Underlying().(*types.Chan); isCh {
 				r.rangeChan[n] = true
 			}
+			if r.unorderedKeyMap(n.X) {
+				fmt.Printf("note: %s ranges over a map whose key type has no order (%s): iterated in insertion order\n", r.where(n), tv.Type)
+				r.rangeMap[n] = true
+				r.rangeAny[n] = true
+			}
 			if orderedKeyMap(tv.Type) {
 				r.rangeMap[n] = true
 			}
@@ -433,6 +440,14 @@ func (r *rewriter) post(c *astutil.Cursor) bool {
 			if obj, ok := r.info.Uses[id]; !ok || obj == nil || obj.Parent() == types.Universe {
 				r.useChan = true
 				c.Replace(call(sel("vchan", "Close"), n.Args[0]))
+			}
+		}
+	case *ast.AssignStmt:
+		// m[k] = v on a map with unordered keys: note the key's first insertion
+		if n.Tok == token.ASSIGN && len(n.Lhs) == 1 && c.Index() >= 0 {
+			if ix, ok := n.Lhs[0].(*ast.IndexExpr); ok && r.unorderedKeyMap(ix.X) && sideEffectFree(ix.Index) {
+				r.useSched = true
+				c.InsertBefore(&ast.ExprStmt{X: call(sel("vsched", "NoteKey"), ix.Index)})
 			}
 		}
 	case *ast.GoStmt:
@@ -581,10 +596,40 @@ func (r *rewriter) rewriteMapRange(n *ast.RangeStmt) ast.Stmt {
 	}
 	body = append(body, n.Body) // its own block: the body may redeclare the range variables (`k := k`)
 	return &ast.ForStmt{
-		Init: &ast.AssignStmt{Lhs: []ast.Expr{ast.NewIdent(it)}, Tok: token.DEFINE, Rhs: []ast.Expr{call(sel("vsched", "RangeMap"), n.X)}},
+		Init: &ast.AssignStmt{Lhs: []ast.Expr{ast.NewIdent(it)}, Tok: token.DEFINE, Rhs: []ast.Expr{call(sel("vsched", r.rangeMapFn(n)), n.X)}},
 		Cond: method("Next"),
 		Body: &ast.BlockStmt{List: body},
 	}
+}
+
+// rangeMapFn: sorted keys where the key type has an order, insertion order (NoteKey) otherwise.
+func (r *rewriter) rangeMapFn(n *ast.RangeStmt) string {
+	if r.rangeAny[n] {
+		return "RangeMapAny"
+	}
+	return "RangeMap"
+}
+
+// unorderedKeyMap reports whether e is a map whose key type has no order.
+func (r *rewriter) unorderedKeyMap(e ast.Expr) bool {
+	tv, ok := r.info.Types[e]
+	if !ok || tv.Type == nil {
+		return false
+	}
+	_, isMap := tv.Type.Underlying().(*types.Map)
+	return isMap && !orderedKeyMap(tv.Type)
+}
+
+func sideEffectFree(e ast.Expr) bool {
+	switch e := e.(type) {
+	case *ast.Ident:
+		return true
+	case *ast.SelectorExpr:
+		return sideEffectFree(e.X)
+	case *ast.ParenExpr:
+		return sideEffectFree(e.X)
+	}
+	return false
 }
 
 func (r *rewriter) rewriteSelect(n *ast.SelectStmt) ast.Stmt {
